@@ -928,8 +928,79 @@ pub fn arity_programs() -> Vec<(Vec<Sx>, String)> {
     out
 }
 
-fn arity_matrix(policy: Policy) -> Acc {
-    let progs = arity_programs();
+/// Scale ladders: the same constructs at every size N = 1..=max - argument lists, parameter lists,
+/// rest lists, internal and top-level definitions, body length, nesting depth of procedures /
+/// conditionals / operands, rounds of a tail loop and of a non-tail recursion, number of calls of one
+/// procedure in one program. A fast path for small sizes, a capacity or a narrow counter shows here.
+pub fn scale_programs(max: usize) -> Vec<(Vec<Sx>, String)> {
+    let mut out: Vec<(Vec<String>, String)> = vec![];
+    let ints = |lo: usize, hi: usize| (lo..=hi).map(|i| i.to_string()).collect::<Vec<_>>().join(" ");
+    let ticks = |lo: usize, hi: usize| (lo..=hi).map(|i| format!("(tick {} {})", i, 1000 + i)).collect::<Vec<_>>().join(" ");
+    for n in 1..=max {
+        let mid = (n + 1) / 2;
+        let ps: Vec<String> = (1..=n).map(|i| format!("p{}", i)).collect();
+        out.push((vec!["(define (f . r) r)".into(), format!("(f {})", ints(1, n)), format!("(f {})", ticks(1, n))], format!("scale rest-list n={}", n)));
+        out.push((vec!["(define (f a . r) (cons a r))".into(), format!("(f {})", ticks(1, n))], format!("scale first+rest n={}", n)));
+        out.push((vec!["(define (f . r) r)".into(), format!("(apply f (list {}))", ints(1, n)), format!("(apply f 1 2 (list {}))", ints(3, n.max(2))), format!("(apply f '({}))", ints(1, n))], format!("scale apply n={}", n)));
+        out.push((
+            vec![format!("(define (f {}) (list p{} p1 p{}))", ps.join(" "), n, mid), format!("(f {})", ticks(1, n)), format!("(apply f (list {}))", ints(1, n)), format!("((lambda ({} . r) (list p{} r)) {} 7 8)", ps.join(" "), n, ints(1, n))],
+            format!("scale fixed-parameters n={}", n),
+        ));
+        let mut defs = vec!["(define d1 1)".to_string()];
+        for i in 2..=n {
+            defs.push(format!("(define d{} (- d{} -1))", i, i - 1));
+        }
+        out.push((vec![format!("(define (f) {} (list d1 d{} d{}))", defs.join(" "), mid, n), "(f)".into(), format!("((lambda (d{}) {} (list d1 d{})) 5)", n + 1, defs.join(" "), n)], format!("scale internal-definitions n={}", n)));
+        let mut fwd = vec![];
+        for i in 1..=n {
+            fwd.push(format!("(define (h{}) {})", i, if i < n { format!("(h{})", i + 1) } else { "42".to_string() }));
+        }
+        out.push((vec![format!("(define (f) {} (h1))", fwd.join(" ")), "(f)".into()], format!("scale forward-references n={}", n)));
+        let mut tops: Vec<String> = (1..=n).map(|i| format!("(define t{} {})", i, i * 3)).collect();
+        tops.push(format!("(list t1 t{} t{})", mid, n));
+        tops.push(format!("((lambda (t{}) (list t1 t{})) 0)", mid, mid));
+        out.push((tops, format!("scale top-level-definitions n={}", n)));
+        out.push((vec![format!("(define (f) {} 'last)", ticks(1, n)), "(f)".into(), format!("((lambda () {}))", ticks(1, n))], format!("scale body-length n={}", n)));
+        out.push((vec![format!("(list {})", ticks(1, n)), format!("'({})", ints(1, n)), format!("(car (cdr '(0 {})))", ints(1, n))], format!("scale list-literal n={}", n)));
+        out.push((
+            vec!["(define (f x) (- x 1))".into(), format!("(list {})", (1..=n).map(|i| format!("(f {})", i)).collect::<Vec<_>>().join(" ")), format!("(f {})", n)],
+            format!("scale calls-of-one-procedure n={}", n),
+        ));
+        out.push((vec!["(define (g a b) (if (< a 1) b (g (- a 1) (- b -2))))".into(), format!("(g {} 0)", n), "(define (h a) (if (< a 1) 0 (- (h (- a 1)) -1)))".into(), format!("(h {})", n)], format!("scale rounds n={}", n)));
+        out.push((
+            vec!["(define (mk k) (lambda () k))".into(), format!("(define ts (list {}))", (1..=n).map(|i| format!("(mk {})", i)).collect::<Vec<_>>().join(" ")), "(force-all ts)".into()],
+            format!("scale closures-alive n={}", n),
+        ));
+        if n <= 100 {
+            let mut e = format!("(list x1 x{} x{})", mid, n);
+            for i in (1..=n).rev() {
+                e = format!("((lambda (x{}) {}) {})", i, e, i * 2);
+            }
+            let mut c = "'deep".to_string();
+            for i in 0..n {
+                c = if i % 2 == 0 { format!("(if #t {} 'no)", c) } else { format!("(if #f 'no {})", c) };
+            }
+            let mut o = "0".to_string();
+            for _ in 0..n {
+                o = format!("(- {} -1)", o);
+            }
+            let mut cl = "(lambda () 7)".to_string();
+            for _ in 0..n {
+                cl = format!("(lambda () {})", cl);
+            }
+            let mut calls = "f".to_string();
+            for _ in 0..=n {
+                calls = format!("({})", calls);
+            }
+            out.push((vec![e, c, o, format!("(define f {})", cl), calls], format!("scale nesting-depth n={}", n)));
+        }
+    }
+    out.into_iter().map(|(p, tag)| (p.iter().map(|t| crate::sexp::parse1(t)).collect(), tag)).collect()
+}
+
+fn arity_matrix(policy: Policy, scale: usize) -> Acc {
+    let mut progs = arity_programs();
+    progs.extend(scale_programs(scale));
     let pr = &progs;
     par::sweep(
         progs.len() as u64,
@@ -939,15 +1010,19 @@ fn arity_matrix(policy: Policy) -> Acc {
             let (forms, tag) = &pr[i as usize];
             let r = judge_program(w, forms, policy, false);
             acc.evals += 1;
-            acc.count("arity-matrix", 1);
-            acc.count(&format!("arity-matrix {}", tag.split(' ').next().unwrap_or("")), 1);
+            if tag.starts_with("scale ") {
+                acc.count(&format!("scale ladder: {}", tag.split(' ').nth(1).unwrap_or("")), 1);
+            } else {
+                acc.count("arity-matrix", 1);
+                acc.count(&format!("arity-matrix {}", tag.split(' ').next().unwrap_or("")), 1);
+            }
             acc.outcome_class(&r.class);
             acc.distinct_hash(r.outcome_hash);
             if !r.ok {
                 acc.mismatch(
                     Mismatch {
                         idx: 8_000_000_000 + i,
-                        case: format!("[arity matrix: {}]\n{}", tag, program_text(forms)),
+                        case: format!("[{}]\n{}", tag, program_text(forms)),
                         expected: r.expected.clone(),
                         observed: r.observed.clone(),
                         payload: json!({"forms": forms.iter().map(|f| f.to_string()).collect::<Vec<_>>(), "policy": [policy.left_to_right, policy.operator_first]}),
@@ -1040,7 +1115,8 @@ pub fn run(ctx: &Ctx) -> i32 {
         }
     }
     let (mut acc, policy) = best.unwrap();
-    acc.merge(arity_matrix(policy));
+    let scale = if ctx.thorough() { 600 } else { 300 };
+    acc.merge(arity_matrix(policy, scale));
     acc.notes.push(format!("operand-order policy that explains every case: left_to_right={} operator_first={}", policy.left_to_right, policy.operator_first));
     let blocks: Vec<_> = sp.blocks.iter().map(|(t, n, k)| json!({"naming": sp.tables[*t].2, "nodes": n, "programs": k})).collect();
     report::finish(
@@ -1050,8 +1126,8 @@ pub fn run(ctx: &Ctx) -> i32 {
             tier: ctx.tier_name(),
             seed: ctx.seed,
             exhaustive: true,
-            rule: "every program of the typed core grammar (literals, variables, -, car/cdr/cons/list/null?, if with boolean and non-boolean tests, lambda with fixed/rest parameters, bodies with internal definitions incl. forward references, applications, apply with and without spread arguments, higher-order and closure-making procedures, top-level definitions in both spellings, tick at every position) with at most N nodes, under two naming disciplines (fresh names / role names that shadow); plus the arity matrix: 0-5 fixed parameters with / without a rest parameter x 0..k+2 arguments (ticks) x bodies returning each parameter / the rest list / all x 6-9 spellings of definition and call; distinct = distinct per-form observation vectors".into(),
-            bounds: json!({"max_nodes": max_nodes, "scoping_grammar_max_nodes": scope_nodes, "loop_grammar_max_nodes": loop_nodes, "blocks": blocks, "fresh_mode_reruns_upto_index": fresh_upto}),
+            rule: "every program of the typed core grammar (literals, variables, -, car/cdr/cons/list/null?, if with boolean and non-boolean tests, lambda with fixed/rest parameters, bodies with internal definitions incl. forward references, applications, apply with and without spread arguments, higher-order and closure-making procedures, top-level definitions in both spellings, tick at every position) with at most N nodes, under two naming disciplines (fresh names / role names that shadow); plus the arity matrix: 0-5 fixed parameters with / without a rest parameter x 0..k+2 arguments (ticks) x bodies returning each parameter / the rest list / all x 6-9 spellings of definition and call; plus scale ladders: argument / parameter / rest lists, internal, forward-referring and top-level definitions, body length, list literals, calls of one procedure, loop rounds, live closures at every size N <= 300 (thorough 600), nesting depth of procedures / conditionals / operands / thunks at every N <= 100; distinct = distinct per-form observation vectors".into(),
+            bounds: json!({"max_nodes": max_nodes, "scoping_grammar_max_nodes": scope_nodes, "loop_grammar_max_nodes": loop_nodes, "blocks": blocks, "fresh_mode_reruns_upto_index": fresh_upto, "scale_ladder_max_n": scale}),
             assumptions: vec![
                 "reference evaluator refsem (self-tested on R7RS 4.1/4.2 examples)".into(),
                 "operand evaluation order: one of four global policies must explain all cases".into(),
